@@ -172,3 +172,12 @@ example : firstMiscount [⟨1, [], [], [1]⟩, ⟨2, [], [], [2]⟩, ⟨3, [], [
   decide
 example : firstMiscount [⟨1, [], [], [1]⟩, ⟨2, [], [], [2]⟩, ⟨4, [1, 2], [1, 2], [4]⟩, ⟨5, [4, 2], [4, 2], [5]⟩, ⟨6, [5], [5], [6]⟩] 6 [1, 2] = some (2, 2) := by
   decide
+
+/-- zero-row blocks change nothing in GMM training either: every iteration, and the whole fit with its
+criterion and iteration count, is the same with the empty blocks removed (each block contributes its
+rows to `t`, an empty block contributes none) -/
+theorem C04_zero_row_blocks_irrelevant {C D : ℕ} (cfg : MlCfg (C+1) D ℝ) (thr : Option ℝ) (fuel : ℕ)
+    (p0 : Params (C+1) D ℝ) (blocks : List (List (Fin D → ℝ))) :
+    gmmMlFitBlocks cfg thr fuel p0 blocks = gmmMlFitBlocks cfg thr fuel p0 (blocks.filter fun b => !b.isEmpty) := by
+  rw [(C04_gmm_ml_chunking_independent cfg thr fuel p0 blocks).2,
+    (C04_gmm_ml_chunking_independent cfg thr fuel p0 (blocks.filter _)).2, flatten_filter_nonempty]
